@@ -314,6 +314,18 @@ class Interp(object):
             for x in args[0]:
                 acc = self.binop(ast.Add(), acc, x)
             return acc
+        if fn is min or fn is max:
+            vals = list(args[0]) if len(args) == 1 else list(args)
+            if not vals:
+                raise Unsupported("min/max of nothing")
+            acc = vals[0]
+            for x in vals[1:]:
+                if not is_z(acc) and not is_z(x):
+                    acc = fn(acc, x)
+                else:
+                    keep = self.compare(ast.LtE() if fn is min else ast.GtE(), acc, x)
+                    acc = self.merge(keep, acc, x) if is_z(keep) else (acc if keep else x)
+            return acc
         if fn is int or name == "byte2int":
             if len(args) == 1:
                 return args[0]
